@@ -129,10 +129,12 @@ pub fn parse_conditions(it: &mut LexIterator) -> ParseResult<Vec<AST>> {
     let mut conditions = vec![];
 
     if it.eat_if(&Token::NL).is_some() {
+        it.eat_while(&Token::NL);
         it.eat(&Token::Indent, "conditions")?;
+        it.eat_while(&Token::NL);
         it.peek_while_not_token(&Token::Dedent, &mut |it, _| {
             conditions.push(*it.parse(&parse_condition, "conditions", start)?);
-            it.eat_if(&Token::NL);
+            it.eat_while(&Token::NL);
             Ok(())
         })?;
         it.eat(&Token::Dedent, "conditions")?;
